@@ -821,6 +821,26 @@ class Driver:
             ent['handed'] = self.handed(TapClient.tap[t0:])
         return ent
 
+    def op_ireport(self):
+        """a report that cannot be sent to anybody: its body violates the schema (empty CodedValue/@Code), the
+        message factory raises while the notification is serialised; the MDIB is not touched"""
+        dm = self.mdib.data_model
+        rep = dm.msg_types.EpisodicMetricReport()
+        rep.set_mdib_version_group(self.mdib.mdib_version_group)
+        st = self.first_state('NumericMetricState').mk_copy()
+        st.BodySite.append(dm.pm_types.CodedValue(''))
+        rep.add_report_part().MetricState.append(st)
+        t0 = len(TapClient.tap)
+        errs0 = {r[0]: r[2] for r in self.table_view()}
+        resp = ['none']
+        try:
+            self._orig_send(rep, Actions.EpisodicMetricReport.value, self.mdib.mdib_version_group)
+        except Exception as exc:  # noqa: BLE001
+            resp = ['raised', type(exc).__name__]
+        ent = self.entry(resp, TapClient.tap[t0:])
+        ent['counted'] = sorted(k for k, _cs, er, *_ in self.table_view() if er != errs0.get(k, er))
+        return ent
+
     def op_hk(self):
         def once():
             self.mgr._run_housekeeping_thread = False
@@ -866,13 +886,15 @@ class Driver:
                     out.append(self.op_freport(op[1], op[2], op[3]))
                 elif op[0] == 'hk':
                     out.append(self.op_hk())
+                elif op[0] == 'ireport':
+                    out.append(self.op_ireport())
                 elif op[0] == 'stop':
                     out.append(self.op_stop(op[1], op[2]))
                 else:
                     raise ValueError(op[0])
             except Exception:  # noqa: BLE001
                 out.append({'resp': ['crash', traceback.format_exc()[-600:]], 'handed': [], 'table': [], 'pool': []})
-            if op[0] not in ('report', 'freport', 'stop') and len(TapClient.tap) != t0:
+            if op[0] not in ('report', 'freport', 'ireport', 'stop') and len(TapClient.tap) != t0:
                 out[-1]['handed'] = self.handed(TapClient.tap[t0:])     # nothing may be sent by other ops
         return out
 
